@@ -226,12 +226,15 @@ pub fn linksz(toks: &[&str]) -> Option<String> {
     let (mut alive_d, mut alive_b) = (true, true);
     // one message in flight per direction at a time keeps memory small; the timeout covers a link that died
     for (i, &sz) in sizes.iter().enumerate() {
-        if alive_d { let _ = boss.sender.send(Command::CreateOrUpdateFile { path: rrp("f"), data: pattern(sz, i), set_modified_time: None, more_to_follow: i % 2 == 0 }); }
+        // the path that travels next to the data: short, and as long as a relative path can be (components of 200 bytes)
+        let plen = [1usize, 300, 1200, 4000][i % 4];
+        let long_path: String = (0..plen).map(|j| if j % 201 == 200 { '/' } else { (b'a' + ((i + j) % 26) as u8) as char }).collect();
+        if alive_d { let _ = boss.sender.send(Command::CreateOrUpdateFile { path: rrp(&long_path), data: pattern(sz, i), set_modified_time: None, more_to_follow: i % 2 == 0 }); }
         if alive_b { let _ = doer.sender.send(Response::FileContent { data: pattern(sz, i + 1000), more_to_follow: i % 2 == 1 }); }
         let (mut got_d, mut got_b) = (!alive_d, !alive_b);
         while !(got_d && got_b) {
             if !got_d { match doer.receiver.try_recv() {
-                Ok(Command::CreateOrUpdateFile { data, more_to_follow, .. }) => { got_d = true; if data == pattern(sz, i) && more_to_follow == (i % 2 == 0) && ok_d == i { ok_d += 1; } else { alive_d = false; } }
+                Ok(Command::CreateOrUpdateFile { path, data, more_to_follow, .. }) => { got_d = true; if data == pattern(sz, i) && rrp_str(&path) == long_path && more_to_follow == (i % 2 == 0) && ok_d == i { ok_d += 1; } else { alive_d = false; } }
                 Ok(_) => { got_d = true; alive_d = false; }
                 Err(crossbeam::channel::TryRecvError::Disconnected) => { got_d = true; alive_d = false; }
                 Err(_) => {} } }
@@ -325,4 +328,39 @@ pub fn linkfinal(toks: &[&str]) -> Option<String> {
         }
     }
     Some(format!("frames={} of={} reuse={}", fd.len(), n + 1, if reuse { 1 } else { 0 }))
+}
+
+
+/// `wirenonces <key hex> <file>...`: each file holds the bytes one direction of a recorded link carried (8-byte little-endian length + AES-GCM
+/// ciphertext per frame).  For every frame: the smallest nonce counter (12 bytes, the counter in the first 8, little-endian) under which it
+/// authenticates with the key, or -1.  Output: one comma-separated list per file, joined by `|`.
+pub fn wirenonces(toks: &[&str]) -> Option<String> {
+    use aes_gcm::{Aes128Gcm, KeyInit, aead::Aead};
+    let mut t = Toks::new(toks);
+    let key = unhex(t.tok()?)?;
+    if key.len() != 16 { return None; }
+    let cipher = Aes128Gcm::new(GenericArray::from_slice(&key));
+    let mut files = vec![];
+    while !t.done() { files.push(t.string()?); }
+    let mut streams: Vec<Vec<Vec<u8>>> = vec![];
+    for f in &files {
+        let bytes = std::fs::read(f).ok()?;
+        let (mut i, mut frames) = (0usize, vec![]);
+        while i + 8 <= bytes.len() {
+            let l = u64::from_le_bytes(bytes[i..i + 8].try_into().unwrap()) as usize;
+            if i + 8 + l > bytes.len() { break; }
+            frames.push(bytes[i + 8..i + 8 + l].to_vec()); i += 8 + l;
+        }
+        streams.push(frames);
+    }
+    let total: usize = streams.iter().map(|s| s.len()).sum();
+    let out: Vec<String> = streams.iter().map(|frames| frames.iter().map(|fr| {
+        let mut found: i64 = -1;
+        for n in 0..(2 * total as u64 + 16) {
+            let mut nb = [0u8; 12]; nb[0..8].copy_from_slice(&n.to_le_bytes());
+            if cipher.decrypt(GenericArray::from_slice(&nb), fr.as_slice()).is_ok() { found = n as i64; break; }
+        }
+        found.to_string()
+    }).collect::<Vec<_>>().join(",")).collect();
+    Some(out.join("|"))
 }
